@@ -1,7 +1,8 @@
 #!/bin/bash
 # tools/seed_eval.sh <worktree> <seed-id> <PROP> [more PROPs...]
 # Confirms a seeded change (demo fails with it, passes without, pinned suite passes with it),
-# stores it under seeded/<seed-id>/ and runs the named checks against it in /repo (applied, then undone).
+# stores it under seeded/<seed-id>/ and runs the named checks against a scratch copy of /repo's working
+# tree with the patch applied (VERIF_REPO), so that long runs against /repo itself are not disturbed.
 set -u
 WT=$1; ID=$2; shift 2
 V=/verif
@@ -20,18 +21,19 @@ timeout 900 /venv/bin/python -m pytest -q -p no:cacheprovider --deselect tests/s
 echo "demo with change: exit $WITH; without: exit $WITHOUT; suite with change: exit $TESTS ($(tail -1 /tmp/seed_tests.txt))"
 cd $V
 RESULTS=""
-if git -C /repo apply --check $V/seeded/$ID/patch.diff 2>/dev/null; then
-  git -C /repo apply $V/seeded/$ID/patch.diff
+SCR=$(mktemp -d /dev/shm/seedrepo-XXXX)
+rsync -a --exclude .git --exclude __pycache__ /repo/ $SCR/
+if (cd $SCR && git apply --unsafe-paths $V/seeded/$ID/patch.diff 2>/dev/null || patch -p1 -s < $V/seeded/$ID/patch.diff); then
   for P in "$@"; do
     T0=$(date +%s)
-    timeout 1500 /venv/bin/python -m pbt.run $P --tier quick --no-evidence > /tmp/seed_check_$P.txt 2>&1; CODE=$?
+    VERIF_REPO=$SCR timeout 1500 /venv/bin/python -m pbt.run $P --tier quick --no-evidence > /tmp/seed_check_$P.txt 2>&1; CODE=$?
     T1=$(date +%s)
     LINE=$(grep -m1 "sig=" /tmp/seed_check_$P.txt | cut -c1-300)
     echo "check $P on seeded/$ID: exit $CODE in $((T1-T0))s $LINE"
     RESULTS="$RESULTS $P:exit$CODE:$((T1-T0))s"
   done
-  git -C /repo checkout -- .
 else
-  echo "PATCH DOES NOT APPLY to /repo"
+  echo "PATCH DOES NOT APPLY to a copy of /repo"
 fi
+rm -rf $SCR
 echo "$ID demo_with=$WITH demo_without=$WITHOUT suite=$TESTS checks=$RESULTS" >> $V/seeded/results.log
